@@ -349,8 +349,36 @@ def plan_c16(K, ctx):
     }
 
 
+# ------------------------------------------------------------------------------------------------ C11
+def plan_c11(K, ctx):
+    cfg = ("SPECIFICATION Spec\n" + consts(TIER=f'"{ctx.tier}"', SEEDS=16, SEED=ctx.seed) +
+           "INVARIANT Lexicon\nINVARIANT GrammarAccepts\nINVARIANT Emit\nCHECK_DEADLOCK FALSE\n")
+
+    def nontrivial(c):
+        v = c.get("v") or c.get("lv")
+        return v["kind"] != "term" or v["v"]["k"] not in ("Word", "Atom")
+
+    K.pipeline(ctx, "ascii", "c11", "MC_C11", cfg, "J_C11", nontrivial, workers=8, shards=6 if ctx.tier == "thorough" else 3)
+    # the lexicon clause is a statement about the code's tables: a violated Lexicon invariant is a violation of C11
+    for a in list(ctx.model_alarms):
+        if "Lexicon" in a:
+            ctx.model_alarms.remove(a)
+            ctx.violations.append(({"id": 0, "c": {"op": "lexicon", "note": "FORMAT_ASCII differs from the published lexicon"}, "o": {"alarm": a}},
+                                   ["ascii-lexicon-differs-from-published"], "MC_C11", "ascii"))
+    return {
+        "note": "Peg.tla transcribes the README grammar rule by rule (ordered choice, greedy repetition, lookahead, implicit whitespace in non-"
+                "atomic rules) and writes out the published lexicon. TLC checks that the dumped enum and lexical ASCII tables equal the published "
+                "lexicon and that the grammar accepts the model formatter's text of every value with the right kind and tree; the judge runs "
+                "the grammar on the REAL output of both ASCII formatters (enum values: U1, atoms, sample/all of U2r, envelopes; lexical values: "
+                "derived copulas, uninterpreted arities, long truth / budget lists) and compares kind and tree with the library's lexical parser.",
+        "rule": "one case = one enum or lexical value formatted in ASCII; non-trivial = not a bare word",
+        "assumptions": TRUSTED + ["Unicode PUNCTUATION|SYMBOL and LETTER|NUMBER are written out for the characters that can occur (ASCII + the name pool)"],
+    }
+
+
 PLANS = {
     "C01": plan_c01,
+    "C11": plan_c11,
     "C16": plan_c16,
     "C06": lambda K, ctx: eqhash_plan(K, ctx, "C06"),
     "C07": lambda K, ctx: eqhash_plan(K, ctx, "C07"),
@@ -367,7 +395,7 @@ PLANS = {
 
 
 # ------------------------------------------------------------------------------------------------ replay / selftest
-JUDGE_OF = {"C16": "J_C16", "C06": "J_C06", "C07": "J_C06", "C04": "J_Garbage", "C05": "J_Garbage", "C12": "J_Garbage", "C08": "J_C08", "C09": "J_Pipe", "C10": "J_Pipe", "C01": "J_C01", "C17": "J_C17", "C14": "J_C14", "C13": "J_C13"}
+JUDGE_OF = {"C11": "J_C11", "C16": "J_C16", "C06": "J_C06", "C07": "J_C06", "C04": "J_Garbage", "C05": "J_Garbage", "C12": "J_Garbage", "C08": "J_C08", "C09": "J_Pipe", "C10": "J_Pipe", "C01": "J_C01", "C17": "J_C17", "C14": "J_C14", "C13": "J_C13"}
 
 
 def replay(K, pid, path, seed):
@@ -376,6 +404,14 @@ def replay(K, pid, path, seed):
     K.sh([K.NV, "dump-vocab", ctx.vocab], 120)
     cmds = os.path.join(ctx.rundir, "replay.cmds.ndjson")
     obs = os.path.join(ctx.rundir, "replay.obs.ndjson")
+    if r["command"].get("op") == "lexicon":
+        cfg = "SPECIFICATION Spec\n" + consts(TIER='"quick"', SEEDS=0, SEED=1) + "INVARIANT Lexicon\nCHECK_DEADLOCK FALSE\n"
+        out, st = K.tlc("MC_C11", cfg, ctx.rundir, "replay_lexicon", ctx.env("ascii"), 1, K.JAVA_OPTS_MC, 600)
+        if any("Lexicon is violated" in e for e in st["errors"]):
+            K.log(f"VIOLATION property={pid} replay={path}")
+            return 1
+        K.log(f"replay of {path}: the property holds on the current tree")
+        return 0
     todo = [r["command"]] + [c for c in r.get("context", []) if c != r["command"]]
     open(cmds, "w", encoding="utf-8").write("".join(json.dumps(c, ensure_ascii=False) + "\n" for c in todo))
     K.run_exec(ctx, cmds, obs, threads=1)
